@@ -9,7 +9,7 @@ RULE = ("Reference model = ordered multimap (priority, arrival) -> item, applied
         "everything resident together in the thief's local queue (stolen batch + the thief's own later pushes) must come out sorted by (priority, arrival) and "
         "carry the priority it was pushed with, (iv) bounded-exhaustive: every history of <= L ops over {push p in {-1,0,1}, pop} on the shared and on a local queue. "
         "Histories that overflow are not judged against a global order. Non-trivial = history has equal priorities and >= 4 ops; distinct = trace fingerprint. "
-        "Pool-level start order (single worker) is checked by the runtime-level workload (see C05 part in wl-core when present).")
+        "(v) pool level: a CoroutinePool with max_size 1 and 2-256 queued tasks of random priorities (incl. ties and i64 extremes): task start order must equal the stable sort by priority.")
 
 def run(tier, seed, t0):
     thorough = tier == "thorough"
@@ -30,7 +30,12 @@ def run(tier, seed, t0):
         elif r.get("t") == "end":
             c = cases[-1]; c.verdict = r["verdict"]; c.sig = r["sig"]; c.detail = r["detail"]; c.nontrivial = True; c.fp = f"exh{r['case']}"
     cases += cp_miri(seed, tier) if thorough else []
+    from checks import common_loops as cl
+    pc = cl.run_cases(PID, "c05", seed, tier, 1500 if thorough else 96, case_timeout=60, jobs=16, binname="pool", offset=5_000_000, engine="native pool (max_size 1)")
+    cases += pc
     def rb(c):
+        if c.idx >= 5_000_000:
+            return {"cmd": f"/verif/wl-core/target/release/pool c05 --seed {seed} --from {c.idx-5_000_000} --to {c.idx-5_000_000+1}"}
         if c.engine == "native-exhaustive":
             return {"cmd": f"/verif/wl-pure/target/release/queues c05 --seed {seed} --from 0 --to 0 --exhaustive {L}"}
         return {"cmd": f"/verif/wl-pure/target/release/queues c05 --seed {seed} --tier {tier} --from {c.idx} --to {c.idx+1}"}
